@@ -5,6 +5,7 @@
 //   c17 makevalid <seed> <n> <outbase>
 //   c17 replay <file>    lines "M | <input tokens> | ... | method=.. keep=.." (re-run) or "W <method> <keep> <wkt>"
 #include "validgen.h"
+#include "c17nest.h"
 #include <cstdarg>
 #include <csignal>
 #include <unistd.h>
@@ -12,6 +13,11 @@
 #include <poll.h>
 #include <fstream>
 #include <iostream>
+// the hole phase of GeometryFixer::fixPolygonElement is private: the stream `hole-class` calls the real fixRing / fixHoles /
+// classifyHoles (all other headers are included before this point, so only this class is affected)
+#define private public
+#include <geos/geom/util/GeometryFixer.h>
+#undef private
 using namespace vh;
 static void notice(const char*, ...) {}
 static void errorh(const char* fmt, ...) { if (std::getenv("C17_VERBOSE")) { va_list ap; va_start(ap, fmt); std::vfprintf(stderr, fmt, ap); std::fputc('\n', stderr); va_end(ap); } }
@@ -96,9 +102,33 @@ static const Tmpl C17_TEMPLATES[] = {
     {"c17_inverted_shell_multi", "MULTIPOLYGON(((5 0,10 0,10 10,0 10,0 0,5 0,3 4,7 4,5 0)),((20 0,24 0,24 4,20 0)))"},
     {"c17_hole_touching_shell_twice", "POLYGON((0 0,10 0,10 10,0 10,0 0),(5 0,8 5,5 10,2 5,5 0))"},
 };
+// share (per cent) of the cut-tree family (harness/c17nest.h: keyhole rings with 2..7 nesting levels, shells that repair into
+// several parts joined by zero-width corridors, holes derived from the boxes) among the generated geometries of every run
+static const int CUTTREE_SHARE = 12;
 static const int N_C17_TEMPLATES = (int) (sizeof(C17_TEMPLATES) / sizeof(C17_TEMPLATES[0]));
 
 static std::string field(const std::string& s, const std::string& k) { size_t p = s.find(k + "="); if (p == std::string::npos) return ""; size_t q = s.find(' ', p); return s.substr(p + k.size() + 1, q == std::string::npos ? std::string::npos : q - p - k.size() - 1); }
+
+// one line of stream hole-class: H | <polygon tokens> | <one digit per interior ring: 1 = classifyHoles put the fixed hole into
+// `holes` (subtracted), 0 = into `shells` (added)>, `-` without interior rings, `shell-empty` when the fixed shell is empty
+static std::string holeClassLine(const Polygon* p, const std::string& toks, Out* out) {
+    std::string res;
+    try {
+        geos::geom::util::GeometryFixer fx(p);
+        std::unique_ptr<Geometry> fixShell = fx.fixRing(p->getExteriorRing());
+        if (fixShell->isEmpty()) res = "shell-empty";
+        else {
+            std::vector<std::unique_ptr<Geometry>> holesFixed = fx.fixHoles(p);
+            std::vector<const Geometry*> holes, shells;
+            fx.classifyHoles(fixShell.get(), holesFixed, holes, shells);
+            if (holesFixed.size() != p->getNumInteriorRing()) res = "hole-count";
+            else { for (auto& hf : holesFixed) res += std::find(holes.begin(), holes.end(), hf.get()) != holes.end() ? '1' : '0'; if (res.empty()) res = "-"; }
+            if (out) { out->count("shell_parts_" + std::to_string(std::min<size_t>(fixShell->getNumGeometries(), 5))); out->count("holes_subtracted", (long) holes.size()); out->count("holes_added", (long) shells.size());
+                if (fixShell->getNumGeometries() > 1 && !holes.empty()) out->count("multipart_shell_with_subtracted_hole"); }
+        }
+    } catch (std::exception&) { res = "exception"; }
+    return "H | " + toks + " | " + res;
+}
 
 int main(int argc, char** argv) {
     if (argc < 3) return 2;
@@ -111,6 +141,8 @@ int main(int argc, char** argv) {
         while (std::getline(f, line)) { if (line.empty()) continue;
             try {
                 std::string toks; int method = 1, keep = 0;
+                if (line.rfind("H | ", 0) == 0) { size_t q = line.find(" | ", 4); std::string t2 = line.substr(4, q == std::string::npos ? std::string::npos : q - 4); HGeo hg = parseHLine(t2); auto g = buildH(hg, gf);
+                    if (g->getGeometryTypeId() != geos::geom::GEOS_POLYGON) { std::cout << "invalid\n"; continue; } std::cout << holeClassLine(static_cast<const Polygon*>(g.get()), dumpGeom(g.get()), nullptr) << "\n"; continue; }
                 if (line.rfind("W ", 0) == 0) { std::istringstream is(line.substr(2)); std::string m; is >> m >> keep; std::string wkt; std::getline(is, wkt); method = m == "L" ? 0 : 1;
                     GEOSGeometry* wg = GEOSGeomFromWKT_r(h, wkt.c_str()); if (!wg) { std::cout << "invalid\n"; continue; } toks = dumpGeom((Geometry*) wg); GEOSGeom_destroy_r(h, wg); }
                 else { std::vector<std::string> parts; size_t p = 0; while (true) { size_t q = line.find(" | ", p); if (q == std::string::npos) { parts.push_back(line.substr(p)); break; } parts.push_back(line.substr(p, q - p)); p = q + 3; }
@@ -123,11 +155,26 @@ int main(int argc, char** argv) {
         GEOS_finish_r(h); return 0; }
     if (argc < 5) return 2;
     uint64_t seed = std::stoull(argv[2]); long n = std::stol(argv[3]); Out out(argv[4]); Rng r(seed);
-    ValidGen gen(r, h, &out);
+    ValidGen gen(r, h, &out); CutTreeGen cutTree(r, &out);
     long emitted = 0;
+    if (stream == "hole-class") {
+        // polygons with interior rings: cut trees (multi-part shells, nested levels, holes derived from the boxes) and the C05 families
+        while (emitted < n) {
+            std::string family; HGeo hg;
+            try { if (r.chance(55)) hg = cutTree.generate(family); else hg = gen.generate(family); } catch (std::exception&) { out.count("generator_error"); continue; }
+            if (hg.type == 6 && !hg.kids.empty()) { HGeo k = hg.kids[r.below(hg.kids.size())]; hg = k; }
+            if (hg.type != 3 || hg.seqs.size() < 2 || hasNonFinite(hg)) continue;
+            Xform t = gen.gg.xform(); if (r.chance(40)) { t = Xform{}; t.sym = (int) r.below(8); }
+            applyX(hg, t);
+            std::unique_ptr<Geometry> g; bool loose = false;
+            try { g = buildH(hg, gf, &loose); } catch (...) { out.count("build_rejected"); continue; }
+            if (loose || g->isEmpty()) continue;
+            out.count("family_" + family);
+            out.emit(holeClassLine(static_cast<const Polygon*>(g.get()), dumpGeom(g.get()), &out), "ok"); emitted++; }
+        GEOS_finish_r(h); return 0; }
     while (emitted < n) {
         std::string family; HGeo hg;
-        try { if (r.chance(9)) { const Tmpl& t = C17_TEMPLATES[r.below(N_C17_TEMPLATES)]; hg = gen.fromWkt(t.wkt); family = t.family; } else hg = gen.generate(family); }
+        try { if (r.chance(CUTTREE_SHARE)) hg = cutTree.generate(family); else if (r.chance(9)) { const Tmpl& t = C17_TEMPLATES[r.below(N_C17_TEMPLATES)]; hg = gen.fromWkt(t.wkt); family = t.family; } else hg = gen.generate(family); }
         catch (std::exception& e) { out.count("generator_error"); continue; }
         Xform t = gen.gg.xform(); if (r.chance(40)) { t = Xform{}; t.sym = (int) r.below(8); }
         applyX(hg, t);
